@@ -208,7 +208,29 @@ struct RunOut {
     outs: u64,
 }
 
-fn run_steps(sim: &mut Sim, steps: &[Value], t0: &Instant, plain: bool, ro: &mut RunOut) -> Result<(), String> {
+/// how a `t` step advances time: the deterministic stepper (tick_ms(1) + can_block), tick_ms(1) only, or one
+/// iteration of the processing loop with 1 ms elapsed (handle_time_ticks: ticks AND the deferred live reload)
+#[derive(Clone, Copy, PartialEq)]
+enum TickMode {
+    Stepper,
+    Plain,
+    Loop,
+}
+
+/// One iteration of the polling branch of the processing loop (what harness/src/reload.rs does for C15).
+#[cfg(kanata_verif)]
+fn loop_iteration(sim: &mut Sim) -> Result<(), String> {
+    sim.k.verif_set_elapsed_ms(1);
+    let n = sim.k.verif_handle_time_ticks(&None).map_err(|e| format!("{e:?}"))?;
+    let _ = sim.k.can_block_update_idle_waiting(n.max(1));
+    Ok(())
+}
+#[cfg(not(kanata_verif))]
+fn loop_iteration(_sim: &mut Sim) -> Result<(), String> {
+    Err("loop mode needs the kanata_verif hooks".to_string())
+}
+
+fn run_steps(sim: &mut Sim, steps: &[Value], t0: &Instant, mode: TickMode, ro: &mut RunOut) -> Result<(), String> {
     let mut seen = 0usize;
     macro_rules! after {
         ($began:expr) => {{
@@ -244,7 +266,11 @@ fn run_steps(sim: &mut Sim, steps: &[Value], t0: &Instant, plain: bool, ro: &mut
                 for _ in 0..n {
                     let began = now_us(t0);
                     STEP_START_US.store(began, Ordering::SeqCst);
-                    let r = if plain { sim.tick_plain() } else { sim.tick().map(|_| ()) };
+                    let r = match mode {
+                        TickMode::Plain => sim.tick_plain(),
+                        TickMode::Stepper => sim.tick().map(|_| ()),
+                        TickMode::Loop => loop_iteration(sim),
+                    };
                     after!(began);
                     r?;
                 }
@@ -302,7 +328,23 @@ fn cmd_run(args: &[String]) -> i32 {
     for (jx, j) in jobs.iter().enumerate() {
         CUR_JOB.store(jx, Ordering::SeqCst);
         let cfg = j["cfg"].as_str().unwrap().to_string();
-        let plain = j["opts"]["mode"].as_str() == Some("plain");
+        let mode = match j["opts"]["mode"].as_str() {
+            Some("plain") => TickMode::Plain,
+            Some("loop") => TickMode::Loop,
+            _ => TickMode::Stepper,
+        };
+        // loop mode: "files" = contents of the configuration files kanata was started with (file 0 = cfg);
+        // written under <out>.files/<job index>/ and used as cfg_paths so that a live reload reads them
+        let mut cfg_paths: Vec<std::path::PathBuf> = vec![];
+        if let Some(files) = j["files"].as_array() {
+            let dir = std::path::PathBuf::from(format!("{outp}.files")).join(format!("{jx}"));
+            let _ = std::fs::create_dir_all(&dir);
+            for (i, f) in files.iter().enumerate() {
+                let p = dir.join(format!("f{i}.kbd"));
+                let _ = std::fs::write(&p, f.as_str().unwrap_or(""));
+                cfg_paths.push(p);
+            }
+        }
         for (sx, s) in j["scripts"].as_array().unwrap().iter().enumerate() {
             CUR_SCRIPT.store(sx, Ordering::SeqCst);
             CUR_STEP.store(0, Ordering::SeqCst);
@@ -316,6 +358,10 @@ fn cmd_run(args: &[String]) -> i32 {
                 }
                 Ok(Err(e)) => json!({"r":"reject","msg":first_line(&e)}),
                 Ok(Ok(mut sim)) => {
+                    if !cfg_paths.is_empty() {
+                        sim.k.cfg_paths = cfg_paths.clone();
+                        sim.k.cur_cfg_idx = 0;
+                    }
                     // event processing happens on the processing-loop thread of the real binary
                     // (std::thread::spawn => 2 MiB stack by default)
                     let t0c = t0;
@@ -324,7 +370,7 @@ fn cmd_run(args: &[String]) -> i32 {
                         .spawn(move || {
                             let mut ro = RunOut { nsteps: 0, max_us: 0, flags: 0, outs: 0 };
                             let r = std::panic::catch_unwind(std::panic::AssertUnwindSafe(|| {
-                                run_steps(&mut sim, &steps, &t0c, plain, &mut ro)
+                                run_steps(&mut sim, &steps, &t0c, mode, &mut ro)
                             }));
                             STEP_START_US.store(0, Ordering::SeqCst);
                             let step = CUR_STEP.load(Ordering::SeqCst);
@@ -363,6 +409,7 @@ fn cmd_run(args: &[String]) -> i32 {
     }
     writeln!(w, "{}", json!({"e":"end"})).unwrap();
     w.flush().unwrap();
+    let _ = std::fs::remove_dir_all(format!("{outp}.files"));
     0
 }
 
